@@ -15,7 +15,7 @@ class GopherProtocol(BaseGopherProtocol):
     def renderobjinfo(self, entry):
         retval = (
             entry.gettype("0")
-            + entry.getname()
+            + entry.getname("")
             + "\t"
             + entry.getselector()
             + "\t"
